@@ -371,6 +371,10 @@ func genMsg(mids []string, depth int, tables map[string]map[string]interface{}) 
 		return pickS([]string{"plain string", "other"})
 	}
 	m := map[string]interface{}{"id": newID("m"), "lvl": float64(depth)}
+	if rng.Intn(8) == 0 {
+		// properties with names that mean something elsewhere in the repository: a message is data, whatever its keys
+		m[pickS([]string{"emit", "cop", "do", "update", "makeTimer", "ctl"})] = "x"
+	}
 	if to, have := genTo(mids); have {
 		m["to"] = to
 		if s, is := to.(string); is && (s == "timers" || s == "captain") {
